@@ -1407,7 +1407,7 @@ fn c13(_tier: &str, seed: u64) -> Report {
             });
         }
     }
-    for n in [40usize, 99, 1027] {
+    for n in [40usize, 99, 1027, 70_002] {
         let rows = rand_rows::<Dna>(&mut rng, n);
         let s = build::<Dna>(&rows);
         let code = |i: usize| (rows[i] | rows[i + 1] << 2 | rows[i + 2] << 4) as u8;
@@ -1787,6 +1787,75 @@ fn c15(tier: &str, seed: u64) -> Report {
     rep
 }
 
+// ------------------------------------------------------------------------------------------ C09
+/// k-mer operations against the same operation on the equivalent sequence, on the real crate.  The word-level proofs are Kani's
+/// (complete per K); this bounded stand-in exists because a rewritten loop (`while src != 0`) can make those harnesses time out:
+/// it sweeps every codec width with STRUCTURED content (all-zero symbols at the ends), which is what such rewrites key on.
+fn c09_k<C: Oracle, const K: usize>(rep: &mut Report, rng: &mut Rng) {
+    let zero = (0..C::len()).find(|&r| C::entry(r).code == 0);
+    let mut contents: Vec<Vec<usize>> = (0..6).map(|_| rand_rows::<C>(rng, K)).collect();
+    if let Some(z) = zero {
+        let mut a = rand_rows::<C>(rng, K); a[K - 1] = z; contents.push(a.clone());
+        a[0] = z; contents.push(a.clone());
+        if K > 2 { a[K - 2] = z; contents.push(a); }
+        contents.push(vec![z; K]);
+    }
+    contents.push(vec![C::len() - 1; K]);
+    for rows in contents {
+        let s = build::<C>(&rows);
+        let k: Kmer<C, K> = match Kmer::try_from(&s[..]) { Ok(k) => k, Err(_) => { rep.expect(false, "C09 a k-mer is built from K symbols", || format!("{} K={}", C::NAME, K)); continue; } };
+        rep.case(|| format!("{} K={} {}", C::NAME, K, s));
+        let canon = |x: &Kmer<C, K>| K * C::BITS as usize == 64 || x.bs >> (K * C::BITS as usize) == 0;
+        let r = k.to_rev();
+        let mut rr = k; rr.rev();
+        rep.expect(r.to_string() == s.to_rev().to_string() && rr == r && r.to_rev() == k && canon(&r), "C09 reversing a k-mer gives the symbols of the reversed sequence (involutive, canonical)", || format!("{} K={} {} -> {} (sequence: {})", C::NAME, K, k, r, s.to_rev()));
+        for n in [0u32, 1, 2, K as u32 - 1, K as u32, K as u32 + 1, 3 * K as u32 + 2, 65_537] {
+            let m = n as usize % K;
+            let mut wl = rows.clone(); wl.rotate_left(m);
+            let mut wr = rows.clone(); wr.rotate_right(m);
+            let (l, rt) = (k.rotated_left(n), k.rotated_right(n));
+            rep.expect(rows_of::<C>(&*l) == wl && rows_of::<C>(&*rt) == wr && canon(&l) && canon(&rt) && l.rotated_right(n) == k, "C09 rotating a k-mer rotates its symbols (any amount, canonical)", || format!("{} K={} {} by {}: left {} right {}", C::NAME, K, k, n, l, rt));
+        }
+        for b in [0usize, C::len() - 1, rng.below(C::len())] {
+            let sym = C::entry(b).sym;
+            let mut wr = rows[1..].to_vec(); wr.push(b);
+            let mut wl = vec![b]; wl.extend(&rows[..K - 1]);
+            let (pr, pl) = (k.pushr(sym), k.pushl(sym));
+            rep.expect(rows_of::<C>(&*pr) == wr && rows_of::<C>(&*pl) == wl && canon(&pr) && canon(&pl), "C09 pushing a symbol on either end drops one from the other end (canonical)", || format!("{} K={} {} push {}: right {} left {}", C::NAME, K, k, sym.to_char() as char, pr, pl));
+        }
+    }
+}
+fn c09_dna<const K: usize>(rep: &mut Report, rng: &mut Rng) {
+    let mut contents: Vec<Vec<usize>> = (0..8).map(|_| rand_rows::<Dna>(rng, K)).collect();
+    contents.push(vec![0; K]);
+    contents.push(vec![3; K]);
+    for rows in contents {
+        let s = build::<Dna>(&rows);
+        let k: Kmer<Dna, K> = Kmer::try_from(&s[..]).unwrap();
+        rep.case(|| format!("Dna K={} {}", K, s));
+        let canon = |x: &Kmer<Dna, K>| K == 32 || x.bs >> (2 * K) == 0;
+        let (c, rc) = (k.to_comp(), k.to_revcomp());
+        rep.expect(c.to_string() == s.to_comp().to_string() && rc.to_string() == s.to_revcomp().to_string() && rc.to_revcomp() == k && c.to_comp() == k && canon(&c) && canon(&rc)
+            && c == Kmer::<Dna, K>::try_from(&s.to_comp()[..]).unwrap() && rc == Kmer::<Dna, K>::try_from(&s.to_revcomp()[..]).unwrap() && std::cmp::min(k, rc) == std::cmp::min(rc, rc.to_revcomp()),
+            "C09 complement / reverse-complement of a DNA k-mer equal those of the sequence (involutive, canonical, same canonical form)", || format!("K={} {} comp {} revcomp {}", K, k, c, rc));
+    }
+}
+fn c09(_tier: &str, seed: u64) -> Report {
+    let mut rep = Report::new("C09", "k-mers of K in {1,2,3,8,16,31,32} (Dna), {1,2,5,16} (Iupac), {1,3,10} (Amino), {1,8} (text), {1,12} (masked 5-bit), {1,7,64} (1-bit): random and structured content (all-zero symbols at either end), every rotation class incl. 65537, pushes of the first / last / a random symbol");
+    rep.functions = vec!["cross-check of the Kani word-level laws on the real crate (bounded): rev / comp / revcomp / rotated_* / pushl / pushr"];
+    let mut rng = Rng::new(seed);
+    c09_k::<Dna, 1>(&mut rep, &mut rng); c09_k::<Dna, 2>(&mut rep, &mut rng); c09_k::<Dna, 3>(&mut rep, &mut rng); c09_k::<Dna, 8>(&mut rep, &mut rng);
+    c09_k::<Dna, 16>(&mut rep, &mut rng); c09_k::<Dna, 31>(&mut rep, &mut rng); c09_k::<Dna, 32>(&mut rep, &mut rng);
+    c09_k::<Iupac, 1>(&mut rep, &mut rng); c09_k::<Iupac, 2>(&mut rep, &mut rng); c09_k::<Iupac, 5>(&mut rep, &mut rng); c09_k::<Iupac, 16>(&mut rep, &mut rng);
+    c09_k::<Amino, 1>(&mut rep, &mut rng); c09_k::<Amino, 3>(&mut rep, &mut rng); c09_k::<Amino, 10>(&mut rep, &mut rng);
+    c09_k::<text::Dna, 1>(&mut rep, &mut rng); c09_k::<text::Dna, 8>(&mut rep, &mut rng);
+    c09_k::<masked::iupac::Iupac, 1>(&mut rep, &mut rng); c09_k::<masked::iupac::Iupac, 12>(&mut rep, &mut rng);
+    c09_k::<masked::dna::Dna, 4>(&mut rep, &mut rng); c09_k::<masked::dna::Dna, 16>(&mut rep, &mut rng);
+    c09_k::<degenerate::dna::Dna, 1>(&mut rep, &mut rng); c09_k::<degenerate::dna::Dna, 7>(&mut rep, &mut rng); c09_k::<degenerate::dna::Dna, 64>(&mut rep, &mut rng);
+    c09_dna::<1>(&mut rep, &mut rng); c09_dna::<2>(&mut rep, &mut rng); c09_dna::<5>(&mut rep, &mut rng); c09_dna::<16>(&mut rep, &mut rng); c09_dna::<31>(&mut rep, &mut rng); c09_dna::<32>(&mut rep, &mut rng);
+    rep
+}
+
 pub fn run(prop: &str, tier: &str, seed: u64) -> Report {
     match prop {
         "C01" => c01(tier, seed),
@@ -1796,6 +1865,7 @@ pub fn run(prop: &str, tier: &str, seed: u64) -> Report {
         "C06" => c06(tier, seed),
         "C07" => c07(tier, seed),
         "C08" => c08(tier, seed),
+        "C09" => c09(tier, seed),
         "C10" => c10(tier, seed),
         "C11" => c11(tier, seed),
         "C12" => c12(tier, seed),
